@@ -1,2 +1,47 @@
-(* C09 - closing theorems only. *)
-From Slim Require Import Base Keys Model.
+(* C09 - Search on an indexed key returns its exact neighbours in every mode.
+   Closing theorem only; proofs in theories/OrderProofs.v and SearchProofs.v.
+
+   [retained_idx] lists the indexes of the retained keys in key order (they are
+   ascending); the theorem says that for the retained key number i, with
+   retained_idx = P ++ i :: S, Search returns the stored values of last(P), i and
+   head(S) - nil where P resp. S is empty.  [stored T vals j] is what the trie
+   returns for key j: its supplied bytes, or nil when the trie stores no values. *)
+From Slim Require Import Base Keys Model TrieInv BuildProofs QueryProofs OrderProofs SearchProofs.
+
+Definition retained_idx (o : opts) (keys : list key) (vals : option (list (list byte))) : list nat :=
+  map e_idx (kept (root_subset o keys vals)).
+
+Theorem C09_search_exact_neighbours :
+  forall (ropt : raw_opt) keys vals T i k P S,
+    build (normalize ropt) keys vals = Ok T ->
+    nth_error keys i = Some k ->
+    retained_idx (normalize ropt) keys vals = P ++ i :: S ->
+    search T k = Ok (option_map (stored T vals) (last_opt P),
+                     Some (stored T vals i),
+                     option_map (stored T vals) (hd_opt S)).
+Proof. intros ropt keys vals T i k P S. exact (search_retained (normalize ropt) keys vals T i k P S). Qed.
+Print Assumptions C09_search_exact_neighbours.
+
+(* [retained_idx] is the ascending list of exactly the retained positions *)
+Theorem C09_retained_idx_spec :
+  forall o keys vals j, In j (retained_idx o keys vals) <-> (j < length keys /\ retained o keys vals j = true).
+Proof.
+  intros o keys vals j. unfold retained_idx. rewrite in_map_iff. split.
+  - intros (e & <- & He). apply filter_In in He. destruct He as [He Hk].
+    destruct (root_ent_in o keys vals e He) as (i & k & Hi & ->). cbn in *. split; [|exact Hk].
+    apply nth_error_Some. rewrite Hi. discriminate.
+  - intros [Hj Hr]. destruct (nth_error keys j) as [k|] eqn:Ek; [|apply nth_error_None in Ek; lia].
+    exists (root_ent o keys vals j k). split; [reflexivity|]. apply filter_In. split; [|exact Hr].
+    eapply nth_error_In. apply root_ent_nth. exact Ek.
+Qed.
+Print Assumptions C09_retained_idx_spec.
+
+Definition ex_keys : list key := [ ["097"%byte]; ["097"%byte; "098"%byte]; ["098"%byte]; ["099"%byte; "100"%byte] ].
+Definition ex_vals : option (list (list byte)) := Some [ ["001"%byte]; ["001"%byte]; ["002"%byte]; ["003"%byte] ].
+Definition ex_opt : raw_opt := {| r_dedup := None; r_inner := None; r_leaf := None; r_complete := None |}.
+(* "ab" is de-duplicated away; the neighbours of "b" are "a" and "cd" *)
+Example C09_example :
+  retained_idx (normalize ex_opt) ex_keys ex_vals = [0; 2; 3] /\
+  exists T, build (normalize ex_opt) ex_keys ex_vals = Ok T /\
+            search T ["098"%byte] = Ok (Some (Some ["001"%byte]), Some (Some ["002"%byte]), Some (Some ["003"%byte])).
+Proof. split; [vm_compute; reflexivity|]. eexists. split; vm_compute; reflexivity. Qed.
